@@ -6,10 +6,10 @@ package auditlog
 
 //@ func (*AuditLogIngester).Process
 //@   blocks cancellable
-//@   requires a != nil
+//@   requires a != nil && ctx != nil
 //@   modifies chans
-//@   ensures[nil] result == nil
-//@   ensures[forward] sentlen(a.AuditLogChan) == old(sentlen(a.AuditLogChan)) + 1
+//@   ensures[nil] result == nil || (cancelled(ctx) && sentlen(a.AuditLogChan) == old(sentlen(a.AuditLogChan)))
+//@   ensures[forward] result == nil ==> sentlen(a.AuditLogChan) == old(sentlen(a.AuditLogChan)) + 1
 //@   |   && sent(a.AuditLogChan, old(sentlen(a.AuditLogChan))).value == line
 
 //@ func (*AuditLogIngester).Ingest
